@@ -620,4 +620,60 @@ def KV.ok : KV → Bool
   | .leaf .. => true
   | .block _ cs => innerOKList cs
 
+/-! ## (vi) numbering a heap graph: the traversal of `export_binary` / `export_kv2`
+
+A *heap* graph is a `Graph` whose element list is in arbitrary order: an element reference `.idx k`
+is the *location* `k` in that list.  `export_binary` numbers the elements reachable from the root by
+iterating over a list it appends to (`for elem in elements: … if subelem.uuid not in elem_to_ind:
+elem_to_ind[...] = len(elements); elements.append(subelem)`), skipping NULL and stub references;
+`export_kv2` uses the same loop.  Elements are identified by location (distinct elements have
+distinct UUIDs). -/
+
+def Attr.refs (a : Attr) : List Nat :=
+  if a.type = .element then
+    a.vals.filterMap fun v => match v with | .ref (.idx k) => some k | _ => none
+  else []
+
+def Elem.refs (e : Elem) : List Nat := e.attrs.flatMap Attr.refs
+
+def Graph.refsAt (h : Graph) (loc : Nat) : List Nat :=
+  match h.elems[loc]? with
+  | some e => e.refs
+  | none => []
+
+/-- the inner loops: append every location not seen yet, in order. -/
+def visitAll (ord : List Nat) : List Nat → List Nat
+  | [] => ord
+  | k :: ks => visitAll (if ord.contains k then ord else ord ++ [k]) ks
+
+/-- `for elem in elements:` with `elements` growing; `i` is the position of the iteration. -/
+def bfs (h : Graph) : Nat → Nat → List Nat → List Nat
+  | 0, _, ord => ord
+  | f + 1, i, ord =>
+    match ord[i]? with
+    | none => ord
+    | some loc => bfs h f (i + 1) (visitAll ord (h.refsAt loc))
+
+/-- `elements` after the loop, as locations: position = assigned index. -/
+def number (h : Graph) (root : Nat) : List Nat := bfs h (h.elems.length + 1) 0 [root]
+
+/-- `elem_to_ind[...]`. -/
+def posOf (ord : List Nat) (k : Nat) : Nat := ord.idxOf k
+
+def relabelVal (ord : List Nat) : Val → Val
+  | .ref (.idx k) => .ref (.idx (posOf ord k))
+  | v => v
+
+def relabelElem (ord : List Nat) (e : Elem) : Elem :=
+  { e with attrs := e.attrs.map fun a => { a with vals := a.vals.map (relabelVal ord) } }
+
+/-- The indexed graph that is written: elements in traversal order, references by index. -/
+def indexed (h : Graph) (root : Nat) : Graph :=
+  let ord := number h root
+  { elems := ord.filterMap fun loc => (h.elems[loc]?).map (relabelElem ord) }
+
+/-- no dangling element references. -/
+def heapClosed (h : Graph) : Bool :=
+  h.elems.all fun e => e.refs.all fun k => decide (k < h.elems.length)
+
 end C14
